@@ -4,7 +4,7 @@ import ast
 import re
 from typing import Dict, List, Optional, Set, Tuple
 
-from ..model import Repo, ClassInfo, FunctionInfo, Module, AnalysisError, walk_no_nested, src, is_self_attr, call_name, \
+from ..model import Repo, ClassInfo, FunctionInfo, Module, AnalysisError, walk_no_nested, src, is_self_attr, call_name, const_str, \
     dotted, parent, enclosing_stmt, ancestors
 from ..core import inconclusive, Ob, Rule, Mutant, mutate_module, find_def, replace_node
 from ..dataflow import Defs
@@ -65,6 +65,10 @@ def rule_settings_writers(repo: Repo) -> List[Ob]:
             if isinstance(n, ast.Call) and isinstance(n.func, ast.Name) and n.func.id in ("setattr", "delattr", "vars") and n.args \
                     and isinstance(n.args[0], ast.Name) and n.args[0].id in aliases:
                 qn, f = _fn_of(repo, m, n)
+                if f is not None and f.node is setter.node and n.func.id == "setattr":
+                    obs.append(Ob("G1-settings", f"{m.relpath}::{qn}::setattr", m.relpath, n.lineno, qn, True,
+                                  "the CLI setter copies options into settings (table-driven form; the census rule checks which)", trivial=True))
+                    continue
                 obs.append(Ob("G1-settings", f"{m.relpath}::{qn}::{n.func.id}", m.relpath, n.lineno, qn, False,
                               f"`{src(n)[:60]}` manipulates the settings module dynamically"))
             if not (isinstance(n, ast.Attribute) and isinstance(n.value, ast.Name) and n.value.id in aliases):
@@ -254,6 +258,29 @@ def rule_settings_census(repo: Repo) -> List[Ob]:
             for t, v in _pairs(n):
                 if isinstance(t, ast.Attribute) and isinstance(t.value, ast.Name) and t.value.id == "settings":
                     assigned[t.attr] = (src(v), n.lineno)
+    # table-driven form:  for opt in TABLE: setattr(settings, opt, getattr(args, opt))
+    table_unreadable = False
+    for loop in [n for n in walk_no_nested(setter.node) if isinstance(n, ast.For) and isinstance(n.target, ast.Name)]:
+        v = loop.target.id
+        sets = [c for c in ast.walk(loop) if isinstance(c, ast.Call) and isinstance(c.func, ast.Name) and c.func.id == "setattr" and len(c.args) == 3
+                and src(c.args[0]) == "settings" and src(c.args[1]) == v]
+        if not sets:
+            continue
+        val = sets[0].args[2]
+        same = isinstance(val, ast.Call) and isinstance(val.func, ast.Name) and val.func.id == "getattr" and len(val.args) >= 2 and src(val.args[0]) == p and src(val.args[1]) == v
+        names = None
+        it = loop.iter
+        if isinstance(it, (ast.Tuple, ast.List)):
+            names = [const_str(e) for e in it.elts]
+        elif isinstance(it, ast.Name):
+            for st in setter.module.tree.body:
+                if isinstance(st, ast.Assign) and isinstance(st.targets[0], ast.Name) and st.targets[0].id == it.id and isinstance(st.value, (ast.Tuple, ast.List)):
+                    names = [const_str(e) for e in st.value.elts]
+        if names is None or any(nm is None for nm in names):
+            table_unreadable = True
+            continue
+        for nm in names:
+            assigned[nm] = (f"{p}.{nm}" if same else f"{src(val)} [for {v} = {nm!r}]", sets[0].lineno)
     ap = repo.cls("ArgumentParser", "cli/argument_parser.py")
     init = ap.methods.get("__init__")
     if init is None:
@@ -280,6 +307,9 @@ def rule_settings_census(repo: Repo) -> List[Ob]:
     for f, line in sorted(fields.items()):
         a = assigned.get(f)
         ok = a is not None and a[0] == f"{p}.{f}"
+        if a is None and table_unreadable:
+            obs.append(inconclusive("G1-census", f"cli/argument_parser.py::{setter.name}::{f}", setter.relpath, setter.node.lineno, setter.qualname, "the setter copies options through a table that could not be read"))
+            continue
         obs.append(Ob("G1-census", f"cli/argument_parser.py::{setter.name}::{f}", setter.relpath, a[1] if a else setter.node.lineno, setter.qualname, ok,
                       f"settings.{f} = {a[0]}" if ok else (f"settings.{f} is set from `{a[0]}` (expected {p}.{f})" if a else f"settings.{f} is never set from the CLI options")))
         o = options.get(f)
@@ -402,6 +432,42 @@ def rule_state_inventory(repo: Repo) -> List[Ob]:
                 if isinstance(d, (ast.List, ast.Dict, ast.Set, ast.ListComp, ast.DictComp, ast.SetComp, ast.Call)):
                     found[f"default::{m.relpath}::{f.qualname}::{arg.arg}"] = (m.relpath, d.lineno, f.qualname, f"default `{arg.arg}={src(d)}` is evaluated once and shared by all calls")
         # module-level statements that mutate module state of *other* modules are not used by polar
+    # containers captured by a closure that is created once per process: a decorator applied at class / module level
+    for m in repo.modules.values():
+        if m.tree is None or not m.relpath.endswith(".py"):
+            continue
+        decorators_used = set()
+        for n in ast.walk(m.tree):
+            if isinstance(n, (ast.FunctionDef, ast.AsyncFunctionDef, ast.ClassDef)):
+                for d in n.decorator_list:
+                    dn = d.func if isinstance(d, ast.Call) else d
+                    if isinstance(dn, ast.Name):
+                        decorators_used.add(dn.id)
+                    elif isinstance(dn, ast.Attribute):
+                        decorators_used.add(dn.attr)
+        for F in [n for n in ast.walk(m.tree) if isinstance(n, (ast.FunctionDef, ast.AsyncFunctionDef))]:
+            bound = {}
+            for st in F.body:
+                if isinstance(st, ast.Assign) and len(st.targets) == 1 and isinstance(st.targets[0], ast.Name):
+                    v = st.value
+                    if isinstance(v, (ast.List, ast.Dict, ast.Set)) or (isinstance(v, ast.Call) and call_name(v) in ("list", "dict", "set", "defaultdict", "deque", "OrderedDict")):
+                        bound[st.targets[0].id] = st
+            if not bound:
+                continue
+            for W in [n for n in ast.walk(F) if isinstance(n, (ast.FunctionDef, ast.AsyncFunctionDef, ast.Lambda)) and n is not F]:
+                wlocals = {x.id for x in ast.walk(W) if isinstance(x, ast.Name) and isinstance(x.ctx, ast.Store)}
+                for n in ast.walk(W):
+                    name = None
+                    if isinstance(n, ast.Call) and isinstance(n.func, ast.Attribute) and n.func.attr in MUTATING and isinstance(n.func.value, ast.Name):
+                        name = n.func.value.id
+                    if isinstance(n, ast.Subscript) and isinstance(n.ctx, (ast.Store, ast.Del)) and isinstance(n.value, ast.Name):
+                        name = n.value.id
+                    if name in bound and name not in wlocals:
+                        once = F.name in decorators_used
+                        if once:
+                            found[f"closure::{m.relpath}::{F.name}::{name}"] = (m.relpath, n.lineno, F.name,
+                                                                                 f"`{name}` is created once per decorated function by the decorator `{F.name}` and written on every call: "
+                                                                                 "it is shared by all objects and all analyses of the process")
     # class-level mutable containers that instances mutate without re-binding them in __init__
     for cls in repo.classes:
         for attr, val in cls.class_assigns.items():
@@ -740,7 +806,7 @@ RULES = {
     "SETTINGS-C": Rule("G1-census", rule_settings_census, 19, "every settings flag has a CLI option defaulting to it and is assigned from that option by the setter", mut_settings_census),
     "STATE": Rule("G3-state", rule_state_inventory, 3, "inventory of process-global mutable state (globals, class attributes rebound at run time, mutated module containers, shared default arguments) equals the reviewed table", mut_state_inventory),
     "RANDOM": Rule("G3-random", rule_random, 10, "random sources occur only in the simulator's samplers and in naming helpers", mut_random),
-    "LRU": Rule("G3-lru", rule_lru, 20, "memoised functions are pure; memoised methods read only fields that the analysis phase never mutates", mut_lru),
+    "LRU": Rule("G3-lru", rule_lru, 8, "memoised functions are pure; memoised methods read only fields that the analysis phase never mutates", mut_lru),
     "FLAG": Rule("G3-flag-refresh", rule_class_flag_refresh, 1, "the class-level exact_func_moments flag is rewritten from settings on every path of normalize_program", mut_class_flag_refresh),
 }
 
